@@ -314,11 +314,10 @@ fn s5_auth<const N: usize>(chunk: usize) {
     core::mem::forget(r);
     assert!(s.pos == 1 + N, "C18.s5.auth.consumed");
 }
-fn s5_auth_truncated() {
+fn s5_auth_truncated(len: usize) {
     let mut data: [u8; CAP] = kani::any();
     data[0] = 3;
-    let short: bool = kani::any();
-    let mut s = Script::new(data, if short { 0 } else { 3 }, 2, false);
+    let mut s = Script::new(data, len, 2, false);
     let r = run(v5::read_auth_methods(&mut s), 2);
     assert!(matches!(&r, Some(Err(Error::ProcessSocksRequest(_, _)))), "C18.s5.auth.truncated");
     core::mem::forget(r);
@@ -517,7 +516,8 @@ h!(c18_s5_req_unknown_atyp, 27, s5_unknown_atyp());
 h!(c18_s5_auth_n0, 27, s5_auth::<0>(1));
 h!(c18_s5_auth_n2, 27, s5_auth::<2>(1));
 h!(c18_s5_auth_n3, 27, s5_auth::<3>(24));
-h!(c18_s5_auth_truncated, 27, s5_auth_truncated());
+h!(c18_s5_auth_truncated_empty, 27, s5_auth_truncated(0));
+h!(c18_s5_auth_truncated_mid, 27, s5_auth_truncated(3));
 h!(c18_s5_write_auth_method, 27, s5_write_auth_method());
 h!(c18_s5_write_response_v4, 27, s5_write_response_v4());
 h!(c18_s5_write_response_v6, 27, s5_write_response_v6());
